@@ -1,8 +1,9 @@
 import McpModel.Base.Proto
-import McpModel.Preflight.Model
+import McpModel.Preflight.Monitor
 /-!
-Driver for E8 Preflight (C12).  Replays every harness record on the model (`Preflight.verdict` and the helper
-functions) and evaluates the C12 monitors on the IMPLEMENTATION's observation:
+Driver for E8 Preflight (C12): the STRING LAYER.  Replays every harness record on the model (`Preflight.verdict` and the
+helper functions), parses the IMPLEMENTATION's observation into the typed observation of `Monitor.lean`, runs the typed
+C12 monitor of the record's kind on it and renders the clause it reports:
 
 * `dispatch_sound`      — a request answered 200/202 satisfies every documented precondition;
 * `rejected ⇒ untouched` — any other status: no middleware / handler saw a message (`R=0 H=0`);
@@ -12,8 +13,10 @@ functions) and evaluates the C12 monitors on the IMPLEMENTATION's observation:
                           arguments that were sent;
 * `decode_encode_header_value`, `primitiveEqual_refl_on_safe_ints`, `accepts_table` on the helper records.
 
-The monitor has its own copies of the specification constants (2^53−1, the media types, the codes).
-Base64 is instantiated with a concrete `StdEncoding` (padding required, CR/LF ignored, non-strict trailing bits).
+What decides whether and which clause is violated is in `Monitor.lean` (bridged to the model by `Bridge.lean`, to the
+property by `Sound.lean`).  Here: the token parser, the renderers of the model's observation (the equality test
+`impl = model` is on these strings), the clause texts, the fall-back clauses for observations that cannot be read, and
+the concrete base64 (Go `StdEncoding`: padding required, CR/LF ignored, non-strict trailing bits).
 -/
 namespace Preflight
 open Proto
@@ -168,11 +171,6 @@ def parseArgs : List String → Option (Args × List String)
     | _ => none
   | toks => (parseParams toks).map (fun (p, r) => (decodeArgs p, r))
 
-/-- More than one member of `params` is called exactly `arguments` (the shape of preflight-F31). -/
-def repeatedArguments : RawParams → Bool
-  | .obj ms => (ms.filter (fun kv => kv.1 == Generated.Preflight.memberArguments)).length ≥ 2
-  | _ => false
-
 def f31Clause : String :=
   "C12: preflight-F31 repeated `arguments` member: the Mcp-Param headers are validated against the MERGED members, the tool handler receives the last one"
 
@@ -244,14 +242,6 @@ def perrTok : PErr → String
   | .notPrimitive => "notprim" | .mismatch => "mismatch"
 
 /-! ### messages and requests -/
-
-/-- A message as the harness describes it: the undecoded message for the model, and what the implementation's own
-extractors returned for it (`extractName`, `extractRequestMeta`) — compared with the model's decoding by the monitor. -/
-structure MsgIn where
-  raw : RawMsg
-  implNameOk : Bool
-  implName : Bytes
-  implMeta : Bytes
 
 /-- `T{ t<hex> p{ … } t<hex> p{ … } }`: the server's tool table as far as the request can name it. -/
 partial def parseTools : List String → List (Bytes × Props) → Option (List (Bytes × Props) × List String)
@@ -325,144 +315,7 @@ def parseReq (toks : List String) : Option (Req × List MsgIn) :=
     | _ => none
   | _ => none
 
-/-! ### the C12 monitor for whole requests (specification constants are literal here) -/
-
-def specMaxSafe : Int := 9007199254740991
-def specJson : Bytes := "application/json".toUTF8.toList.map UInt8.toNat
-def spec20260728 : Bytes := "2026-07-28".toUTF8.toList.map UInt8.toNat
-def spec20250618 : Bytes := "2025-06-18".toUTF8.toList.map UInt8.toNat
-def specSupported : List Bytes :=
-  ["2026-07-28", "2025-11-25", "2025-06-18", "2025-03-26", "2024-11-05"].map (fun s => s.toUTF8.toList.map UInt8.toNat)
-def specNamed : List Bytes := ["tools/call", "resources/read", "prompts/get"].map (fun s => s.toUTF8.toList.map UInt8.toNat)
-def specToolsCall : Bytes := "tools/call".toUTF8.toList.map UInt8.toNat
-def specDiscover : Bytes := "server/discover".toUTF8.toList.map UInt8.toNat
-def specJsonTokens : List (List Nat) := ["application/json", "application/*", "*/*"].map (fun s => s.toList.map Char.toNat)
-def specStreamTokens : List (List Nat) := ["text/event-stream", "text/*", "*/*"].map (fun s => s.toList.map Char.toNat)
-
-def specAccepts (values : List Bytes) : Bool × Bool :=
-  let toks := acceptTokens values
-  (toks.any specJsonTokens.contains, toks.any specStreamTokens.contains)
-
-/-- One `Mcp-Param-*` binding mirrors the body (the documented requirement): absent/null argument ⇒ no header;
-otherwise the argument is a string, a boolean or an integer within ±(2^53−1) and the (decoded) header equals it;
-the empty string may travel as an empty/absent header. -/
-def bindingMirrors (a : Args) (h : ParamHdrs) (b : Binding) : Bool :=
-  let hv := h.get b.header
-  match a.lookup b.path with
-  | none => hv == []
-  | some .null => hv == []
-  | some v =>
-    match unmarshalPrimitive v with
-    | none => false
-    | some p =>
-      let safe := match p with | .int n => -specMaxSafe ≤ n && n ≤ specMaxSafe | _ => true
-      safe && (if hv == [] then p == .str [] else
-        match decodeHeaderValue std64 hv with
-        | none => false
-        | some d => primitiveEqual d p)
-
-/-- Diagnosis for the name clause: the header equals the value of a member whose name differs from the identifying
-member's only in case (a member the case-sensitive dispatcher ignores). -/
-def decoyNote (r : Req) (ins : List MsgIn) : String :=
-  match ins with
-  | [mi] =>
-    (match nameMemberOf mi.raw.method, mi.raw.params with
-     | some key, .obj ms =>
-       (match ms.find? (fun kv => kv.1 != key && lowerBytes kv.1 == lowerBytes key && (match kv.2 with | .str s => s == r.mcpName | _ => false)) with
-        | some kv => s!"; Mcp-Name equals the member {bHex kv.1}, whose name differs in case and which the dispatcher ignores"
-        | none => "")
-     | _, _ => "")
-  | _ => ""
-
-/-- Names of the documented preconditions of a message-carrying POST that `r` violates, each with the answers the
-code mandates for it (status, optional JSON-RPC code). Declarative: no ordering is implied. -/
-def violations (r : Req) (ins : List MsgIn := []) : List (String × List (Nat × Option Int)) :=
-  let v (c : Bool) (name : String) (ans : List (Nat × Option Int)) : List (String × List (Nat × Option Int)) :=
-    if c then [(name, ans)] else []
-  let pv := if r.version = [] then "2025-03-26".toUTF8.toList.map UInt8.toNat else r.version
-  let newProto := bLe spec20260728 pv
-  let msgs : List Msg := match r.content with | .msgs _ l => l | .malformed => []
-  let isBatch := match r.content with | .msgs b _ => b | .malformed => false
-  let reqs := msgs.filter (·.isReq)
-  match r.kind with
-  | .sse =>
-    v (!r.protectionDisabled && r.hasLocalAddr && r.listenerLoopback && !r.hostLoopback) "loopback listener with non-loopback Host" [(403, none)] ++
-    v (r.method != .post) "method not POST" [(405, none)] ++
-    v (r.baseMedia != specJson) "Content-Type not application/json" [(415, none)] ++
-    v (r.sess == .none) "no session id" [(400, none)] ++
-    v (r.sess == .unknown) "unknown session" [(404, none)] ++
-    v r.readFails "request body not delivered completely" [(400, none)] ++
-    v (match r.content with | .msgs false [_] => false | _ => true) "body is not one JSON-RPC message" [(400, none)] ++
-    v (reqs.any (fun m => m.check != .ok)) "checkRequest failed" [(400, none)]
-  | _ =>
-    let stateless := r.kind == .stateless
-    let acc := specAccepts r.accept
-    v (!r.protectionDisabled && r.hasLocalAddr && r.listenerLoopback && !r.hostLoopback) "loopback listener with non-loopback Host" [(403, none)] ++
-    v r.originRejects "cross-origin request" [(403, none)] ++
-    v (r.version != [] && !specSupported.contains r.version && bLt r.version spec20260728) "unsupported Mcp-Protocol-Version" [(400, none)] ++
-    v (r.method != .post) "method not POST" [(405, none), (400, none), (404, none)] ++
-    v (r.baseMedia != specJson) "Content-Type not application/json" [(415, none)] ++
-    v (!(acc.1 && acc.2)) "Accept does not admit both response types" [(400, none)] ++
-    v (!stateless && r.sess == .unknown) "unknown session" [(404, none)] ++
-    v r.lastEventId "Last-Event-ID on POST" [(400, none)] ++
-    (let lim : Int := if r.limit = 0 then (4194304 : Int) else r.limit
-     -- the limit bounds what is delivered, with or without a declared length; declaring more than the limit is over it too
-     v (lim > 0 && ((r.bodyLen : Int) > lim || (match r.declared with | some d => (d : Int) > lim | none => false)))
-       (match r.declared with
-        | some _ => "body larger than the limit"
-        | none => "body larger than the limit (no declared length: chunked upload)") [(413, none)]) ++
-    v r.readFails "request body not delivered completely" [(400, none)] ++
-    v (r.bodyLen == 0) "empty body" [(400, none)] ++
-    v (match r.content with | .malformed => true | _ => false) "malformed body" [(400, none)] ++
-    v (isBatch && bLe spec20250618 pv) "batch under >= 2025-06-18" [(400, none)] ++
-    v (reqs.any (fun m => m.check != .ok)) "checkRequest failed" [(400, none), (404, some (-32601))] ++
-    -- the per-request-metadata rules bind every request of the body, whether the body is one message or a JSON array
-    (let inArr := if isBatch then s!" (request inside a JSON array body of {msgs.length})" else ""
-     v (reqs.any (fun m => (newProto || m.metaVersion != []) && !stateless && m.method != specDiscover)) ("new protocol on a stateful server" ++ inArr) [(400, some (-32022))] ++
-     v (reqs.any (fun m => (newProto || m.metaVersion != []) && r.version == [])) ("version header missing for per-request metadata" ++ inArr) [(400, some (-32020))] ++
-     v (reqs.any (fun m => (newProto || m.metaVersion != []) && m.metaVersion == [])) ("_meta protocolVersion missing" ++ inArr) [(400, some (-32602))] ++
-     v (reqs.any (fun m => (newProto || m.metaVersion != []) && r.version != [] && m.metaVersion != [] && r.version != m.metaVersion)) ("version header differs from _meta" ++ inArr) [(400, some (-32020))]) ++
-    (match isBatch, msgs with
-     | false, [m] =>
-       if !(newProto && m.isReq) then [] else
-       let named := specNamed.contains m.method
-       v (r.mcpMethod != m.method) "Mcp-Method differs from the method" [(400, some (-32020))] ++
-       -- the name is the value of the params member called exactly `name` / `uri`: the one the dispatcher decodes and runs
-       v (named && (!m.nameOk || r.mcpName == [] || r.mcpName != m.name))
-         ("Mcp-Name differs from the name that is dispatched (the params member called exactly `name` / `uri`)" ++ decoyNote r ins)
-         [(400, some (-32020))] ++
-       (match m.tool with
-        | some p =>
-          if m.method == specToolsCall && m.nameOk && (match m.args with | .bad => false | _ => true) then
-            v ((bindings p).any (fun b => !bindingMirrors m.args r.paramHdrs b)) "Mcp-Param header differs from the argument" [(400, some (-32020))]
-          else []
-        | none => [])
-     | _, _ => [])
-
-/-- F6 shape: the request violates nothing, and some bound argument is the empty string travelling as an empty header. -/
-def f6Shape (r : Req) : Bool :=
-  match r.content with
-  | .msgs false [m] =>
-    (match m.tool with
-     | some p => (bindings p).any (fun b => r.paramHdrs.get b.header == [] && (match m.args.lookup b.path with
-        | some v => unmarshalPrimitive v == some (.str []) | none => false))
-     | none => false)
-  | _ => false
-
-/-- Every bound, present, non-null argument is a string, a boolean or an integer within ±(2^53−1). -/
-def argsValidB (p : Props) (a : Args) : Bool :=
-  (bindings p).all (fun b => match a.lookup b.path with
-    | none => true | some .null => true
-    | some v => match unmarshalPrimitive v with
-      | some (.int n) => -specMaxSafe ≤ n && n ≤ specMaxSafe
-      | some _ => true
-      | none => false)
-
-/-- Number of properties of the tree annotated with a non-empty string (read off the tree, no paths involved). -/
-def countBound : Props → Nat
-  | .nil => 0
-  | .cons _ _ xh children rest =>
-    (match xh with | .str s => if s = [] then 0 else 1 | _ => 0) + countBound children + countBound rest
+/-! ### observations of the implementation: parsing and rendering -/
 
 def showPath (π : List Bytes) : String := ".".intercalate (π.map bHex)
 
@@ -477,14 +330,12 @@ def parseImplBindings (items : List String) : Option (List Binding) :=
       | _, _ => none
     | _ => none)
 
-structure HttpObs where
-  status : Nat
-  code : Option Int
-  allow : Option Bytes
-  reached : Nat
-  handled : Nat
-  disp : Nat
-  names : String        -- `X=`: the names (hex, comma-separated, sorted) the tool / prompt / resource handlers were run for, `-` none
+/-- `X=`: the names (hex, comma-separated, sorted) the tool / prompt / resource handlers were run for, `-` none. -/
+def parseNames (s : String) : Option (List Bytes) :=
+  if s == "-" then some [] else (s.splitOn ",").mapM hexB
+
+def showNames (l : List Bytes) : String :=
+  if l.isEmpty then "-" else ",".intercalate (l.map bHex)
 
 def parseHttpObs (s : String) : Option HttpObs :=
   match words s with
@@ -494,78 +345,124 @@ def parseHttpObs (s : String) : Option HttpObs :=
       let code := if e == "E=-" then none else (tailN 2 e).toInt?
       let allow := if a == "A=-" then none else hexB (tailN 2 a)
       if !x.startsWith "X=" then none else
-      some { status := st, code := code, allow := allow, reached := r, handled := h, disp := d, names := tailN 2 x }
+      (parseNames (tailN 2 x)).map (fun names =>
+        { status := st, code := code, allow := allow, reached := r, handled := h, disp := d, names := names })
     | _, _, _, _ => none
   | _ => none
 
 def optInt (c : Option Int) : String := match c with | some c => toString c | none => "-"
 
-/-- The answers a dispatched call may still get from the session layer under >= 2026-07-28
-(`extractErrorStatus`: SEP-2575 maps these JSON-RPC errors to an HTTP status). Not this property's business. -/
-def lateErrors : List (Nat × Option Int) := [(404, some (-32601)), (400, some (-32602)), (400, some (-32022)), (400, some (-32021))]
+def showHttpObs (o : HttpObs) : String :=
+  s!"S={o.status} E={optInt o.code} A={match o.allow with | some a => bHex a | none => "-"} R={o.reached} H={o.handled} D={o.disp} X={showNames o.names}"
 
-def showOutcome (r : Req) (o : Outcome) (impl : Option HttpObs) : String :=
-  match o with
-  | .reject st code allow =>
-    s!"S={st} E={optInt code} A={match allow with | some a => bHex a | none => "-"} R=0 H=0 D=0 X=-"
-  | .dispatched calls =>
-    -- what the session does with a dispatched message is not this property's business: the counters are echoed, and so
-    -- is the status of a call under >= 2026-07-28 when it is one of the SEP-2575 error mappings
-    match impl with
-    | some ob =>
-      -- but WHICH tool / prompt / resource runs is: when the single message of the body made one handler run, it ran
-      -- for the name the model decoded from the member list (exact member name; the dispatcher's decoder)
-      let x := match soleMsg r with
-        | some m => if ob.handled == 1 && m.isReq then bHex m.name else ob.names
-        | none => ob.names
-      if !calls then s!"S=202 E=- A=- R={ob.reached} H={ob.handled} D=1 X={x}"
-      else if bLe spec20260728 r.version && lateErrors.contains (ob.status, ob.code) then
-        s!"S={ob.status} E={optInt ob.code} A=- R={ob.reached} H={ob.handled} D=1 X={x}"
-      else s!"S=200 E=- A=- R={ob.reached} H={ob.handled} D=1 X={x}"
-    | none => s!"S={if calls then 200 else 202} E=- A=- R=0 H=0 D=1 X=-"
-  | .served st =>
-    let (rr, h, x) := match impl with | some o => (o.reached, o.handled, o.names) | none => (0, 0, "-")
-    s!"S={st} E=- A=- R={rr} H={h} D=0 X={x}"
+/-- The implementation's observation when it cannot be read: nothing is echoed into the model's observation. -/
+def blankObs : HttpObs := { status := 0, code := none, allow := none, reached := 0, handled := 0, disp := 0, names := [] }
 
-/-- The mirror seen from the handler's side: under >= 2026-07-28 a tool / prompt / resource handler ran for a name other
-than the one `Mcp-Name` announced. -/
-def handlerNameMonitor (r : Req) (o : HttpObs) : Option String :=
-  match r.kind, r.content with
-  | .sse, _ => none
-  | _, .msgs false [m] =>
-    if o.disp == 1 && o.handled == 1 && m.isReq && bLe spec20260728 r.version && specNamed.contains m.method &&
-        o.names != "-" && o.names != bHex r.mcpName then
-      some s!"C12: name_mirror: the handler ran for {o.names} although Mcp-Name announced {bHex r.mcpName}"
-    else none
-  | _, _ => none
+def parseVphObs (s : String) : VphObs :=
+  match words s with
+  | ["ok"] => .ok
+  | ["err"] => .err none
+  | ["err", k] =>
+    (match [PErr.unexpected, .missing, .badBase64, .notPrimitive, .mismatch].find? (fun e => perrTok e == k) with
+     | some e => .err (some e)
+     | none => .other)
+  | _ => .other
 
-def httpMonitor (r : Req) (o : HttpObs) (ins : List MsgIn := []) : Option String :=
-  let viol := violations r ins
-  let carries := r.method == .post
-  let dispatched := o.disp == 1
-  if !dispatched && (o.reached != 0 || o.handled != 0) then
-    some s!"C12: refused request (status {o.status}) reached a middleware/handler"
-  else if !carries then none
-  else if dispatched then
-    match viol with
-    | (name, _) :: _ => some s!"C12: dispatch_sound: dispatched although: {name}"
-    | [] => none
-  else
-    match viol with
-    | [] =>
-      if o.code == some (-32020) && f6Shape r then
-        some "C12: F6 empty-string argument: the server refuses (-32020) the empty Mcp-Param header the SDK client sends"
-      else some s!"C12: violation_status: request meeting every precondition refused with {o.status}/{optInt o.code}"
-    | _ =>
-      if viol.any (fun p => p.2.contains (o.status, o.code)) then none
-      else if o.status == 400 && o.code == none && r.kind == .stateful && r.noSessionIds && r.sess == .none &&
-          viol.any (fun p => p.2 == [(413, none)]) then
-        some "C12: preflight-F30 oversize body on a stateful handler without session ids: answered 400 instead of 413"
-      else some s!"C12: violation_status: status {o.status}/{optInt o.code} is not mandated by any violated precondition"
+def showVphObs : VphObs → String
+  | .ok => "ok"
+  | .err none => "err"
+  | .err (some e) => "err " ++ perrTok e
+  | .other => "?"
+
+def parseE2eObs (s : String) : E2eObs :=
+  if s == "ok same" then .okSame
+  else if s.startsWith "ok" then .okOther
+  else .notOk (s.endsWith "handler=0")
+
+/-! ### clause texts -/
+
+/-- Diagnosis for the name clause: the header equals the value of a member whose name differs from the identifying
+member's only in case (a member the case-sensitive dispatcher ignores). -/
+def decoyNote (r : Req) (ins : List MsgIn) : String :=
+  match ins with
+  | [mi] =>
+    (match nameMemberOf mi.raw.method, mi.raw.params with
+     | some key, .obj ms =>
+       (match ms.find? (fun kv => kv.1 != key && lowerBytes kv.1 == lowerBytes key && (match kv.2 with | .str s => s == r.mcpName | _ => false)) with
+        | some kv => s!"; Mcp-Name equals the member {bHex kv.1}, whose name differs in case and which the dispatcher ignores"
+        | none => "")
+     | _, _ => "")
+  | _ => ""
+
+/-- The name of a documented precondition, as the clauses print it. -/
+def precondText (r : Req) (ins : List MsgIn) (p : Precond) : String :=
+  let inArr := if reqIsBatch r then s!" (request inside a JSON array body of {(reqMsgs r).length})" else ""
+  match p with
+  | .host => "loopback listener with non-loopback Host"
+  | .origin => "cross-origin request"
+  | .version => "unsupported Mcp-Protocol-Version"
+  | .method => "method not POST"
+  | .media => "Content-Type not application/json"
+  | .accept => "Accept does not admit both response types"
+  | .session => "unknown session"
+  | .lastEventId => "Last-Event-ID on POST"
+  | .size =>
+    (match r.declared with
+     | some _ => "body larger than the limit"
+     | none => "body larger than the limit (no declared length: chunked upload)")
+  | .delivered => "request body not delivered completely"
+  | .empty => "empty body"
+  | .malformed => "malformed body"
+  | .batch => "batch under >= 2025-06-18"
+  | .check => "checkRequest failed"
+  | .statefulNew => "new protocol on a stateful server" ++ inArr
+  | .versionMissing => "version header missing for per-request metadata" ++ inArr
+  | .metaMissing => "_meta protocolVersion missing" ++ inArr
+  | .versionDiffers => "version header differs from _meta" ++ inArr
+  | .mcpMethod => "Mcp-Method differs from the method"
+  | .mcpName => "Mcp-Name differs from the name that is dispatched (the params member called exactly `name` / `uri`)" ++ decoyNote r ins
+  | .mcpParam => "Mcp-Param header differs from the argument"
+  | .sseNoSession => "no session id"
+  | .sseOneMessage => "body is not one JSON-RPC message"
+
+def optHex (b : Option Bytes) (dflt : String) : String := match b with | some x => bHex x | none => dflt
+
+/-- The text of a clause (`r`, `ins`: the request of an `http` record, for the names of its preconditions). -/
+def clauseText (r : Option (Req × List MsgIn)) : Clause → String
+  | .acceptsTable => "C12: accepts_table: Accept flags differ from the token table (application/json|application/*|*/* ; text/event-stream|text/*|*/*)"
+  | .rtDiffers => "C12: decode_encode_header_value: decode(encode v) differs from the value's string"
+  | .rtUndecodable => "C12: decode_encode_header_value: the encoded value does not decode"
+  | .peqSafeInt => "C12: primitiveEqual_refl_on_safe_ints: an integer within ±(2^53−1) does not equal its own decimal form"
+  | .peqValue => "C12: primitiveEqual: a value does not equal its own string form"
+  | .bindPath b => s!"C12: bindings: the binding for header {bHex b.header} has path {showPath b.path}, which does not designate the property annotated with that header (depth {b.path.length})"
+  | .bindShared => "C12: bindings: two bindings share one path (sibling annotations alias)"
+  | .bindCount got want => s!"C12: bindings: {got} bindings for {want} annotated properties"
+  | .genMirror b => s!"C12: client_server_agree: generateParamHeaders: Mcp-Param-{bHex b.header} does not mirror the argument at {showPath b.path} (depth {b.path.length})"
+  | .genUnbound => "C12: client_server_agree: generateParamHeaders produces a header that no annotation binds"
+  | .f31 => f31Clause
+  | .vphF6 => "C12: F6 empty-string argument: validateParamHeaders refuses the empty Mcp-Param header the SDK client sends"
+  | .vphAccepts (some b) => s!"C12: dispatch_sound: validateParamHeaders accepts although Mcp-Param-{bHex b.header} differs from the argument at {showPath b.path} (depth {b.path.length})"
+  | .vphAccepts none => "C12: dispatch_sound: validateParamHeaders accepts headers that do not mirror the arguments"
+  | .vphRefuses => "C12: violation_status: validateParamHeaders refuses headers that mirror the arguments"
+  | .nameMirror impl key exact => s!"C12: name_mirror_case_sensitive: extractName yields {bHex impl}; the params member called exactly {optHex key "-"} (what the dispatcher decodes and runs) is {optHex exact "not a string"}"
+  | .metaMirror impl exact => s!"C12: meta_mirror_case_sensitive: extractRequestMeta yields protocol version {bHex impl}; the member called exactly _meta carries {bHex exact}"
+  | .e2eF6 => "C12: F6 empty-string argument: the SDK server refuses the SDK client's call (-32020 missing header)"
+  | .e2eAgree => "C12: client_server_agree: the SDK server refuses or alters a call the SDK client generated for valid arguments"
+  | .e2eReached => "C12: refused call reached the tool handler"
+  | .reached st => s!"C12: refused request (status {st}) reached a middleware/handler"
+  | .dispatchSound p => s!"C12: dispatch_sound: dispatched although: {match r with | some (r, ins) => precondText r ins p | none => reprStr p}"
+  | .httpF6 => "C12: F6 empty-string argument: the server refuses (-32020) the empty Mcp-Param header the SDK client sends"
+  | .refusedClean st code => s!"C12: violation_status: request meeting every precondition refused with {st}/{optInt code}"
+  | .httpF30 => "C12: preflight-F30 oversize body on a stateful handler without session ids: answered 400 instead of 413"
+  | .notMandated st code => s!"C12: violation_status: status {st}/{optInt code} is not mandated by any violated precondition"
+  | .handlerName names announced => s!"C12: name_mirror: the handler ran for {showNames names} although Mcp-Name announced {bHex announced}"
 
 /-! ### the engine -/
 
 def bad : Verdict := { model := "bad-op" }
+
+/-- The clause a typed monitor reports, as text. -/
+def say (c : Option Clause) : Option String := c.map (clauseText none)
 
 def stepOp (toks : List String) (impl : String) : Verdict :=
   match toks with
@@ -573,11 +470,11 @@ def stepOp (toks : List String) (impl : String) : Verdict :=
     match parseAccept r with
     | some (vs, []) =>
       let m := streamableAccepts vs
-      let spec := specAccepts vs
-      let model := tf m.1 ++ " " ++ tf m.2
-      let viol := if impl == tf spec.1 ++ " " ++ tf spec.2 then none
-        else some "C12: accepts_table: Accept flags differ from the token table (application/json|application/*|*/* ; text/event-stream|text/*|*/*)"
-      { model := model, violated := viol }
+      let flag (s : String) : Option Bool := if s == "t" then some true else if s == "f" then some false else none
+      let viol := match (words impl).mapM flag with
+        | some [a, b] => say (acceptsMonitor vs (a, b))
+        | _ => say (some .acceptsTable)
+      { model := tf m.1 ++ " " ++ tf m.2, violated := viol }
     | _ => bad
   | ["rt", p] =>
     match parsePrim p with
@@ -588,8 +485,11 @@ def stepOp (toks : List String) (impl : String) : Verdict :=
         | some d => "r" ++ tf (requiresBase64 s) ++ " e" ++ bHex e ++ " d" ++ bHex d
         | none => "e" ++ bHex e ++ " bad"
       let viol := match words impl with
-        | [_, _, d] => if d == "d" ++ bHex s then none else some "C12: decode_encode_header_value: decode(encode v) differs from the value's string"
-        | _ => some "C12: decode_encode_header_value: the encoded value does not decode"
+        | [_, _, d] =>
+          (match (if d.startsWith "d" then hexB (tail1 d) else none) with
+           | some d => say (rtMonitor v (some d))
+           | none => say (some .rtDiffers))
+        | _ => say (rtMonitor v none)
       { model := model, violated := viol }
     | none => bad
   | ["dec", h] =>
@@ -608,36 +508,17 @@ def stepOp (toks : List String) (impl : String) : Verdict :=
         | some _ => parseFloat h == parseFloatGeneral h
         | none => true
       let model := if consistent then tf (primitiveEqual h v) else "model-inconsistent"
-      let viol := match v with
-        | .int n =>
-          if h == intToDec n && -specMaxSafe ≤ n && n ≤ specMaxSafe && impl != "t" then
-            some "C12: primitiveEqual_refl_on_safe_ints: an integer within ±(2^53−1) does not equal its own decimal form"
-          else none
-        | _ => if h == primToString v && impl != "t" then some "C12: primitiveEqual: a value does not equal its own string form" else none
-      { model := model, violated := viol }
+      { model := model, violated := say (peqMonitor h v (impl == "t")) }
     | _, _ => bad
   | "annot" :: r =>
     match parseProps r with
     | some (p, []) =>
       let v := if validateAnnotations p then "ok" else "err"
-      -- monitor (binding_path_resolves / bindings_complete / binding_paths_nodup): read from the root of the schema,
-      -- every binding the implementation reports designates a property annotated with exactly that header, no path is
-      -- reported twice, and there are as many bindings as annotated properties
       let viol : Option String :=
         if !namesDistinctB p then none else
         match parseImplBindings ((words impl).drop 1) with
         | none => some "C12: bindings: unreadable binding list"
-        | some bs =>
-          match bs.find? (fun b => !(match propAt p b.path with
-              | some (_, .str h) => h == b.header && h != []
-              | _ => false)) with
-          | some b => some s!"C12: bindings: the binding for header {bHex b.header} has path {showPath b.path}, which does not designate the property annotated with that header (depth {b.path.length})"
-          | none =>
-            if !nodupB (bs.map (fun b => ".".intercalate (b.path.map bHex) |>.toUTF8.toList.map UInt8.toNat)) then
-              some "C12: bindings: two bindings share one path (sibling annotations alias)"
-            else if bs.length != countBound p then
-              some s!"C12: bindings: {bs.length} bindings for {countBound p} annotated properties"
-            else none
+        | some bs => say (annotMonitor p bs)
       { model := " ".intercalate (v :: showBindings (bindings p)), violated := viol }
     | _ => bad
   | "gen" :: r =>
@@ -645,18 +526,10 @@ def stepOp (toks : List String) (impl : String) : Verdict :=
     | some (p, r1) =>
       match parseArgs r1 with
       | some (a, []) =>
-        -- monitor (client side of the mirror): for valid arguments every binding's header mirrors the argument at the
-        -- binding's own path, and no other Mcp-Param header is produced
         let viol : Option String :=
-          if !(namesDistinctB p && validateAnnotations p && argsValidB p a) then none else
+          if !(toolValidB p && argsValidB p a) then none else
           match parseHdrs (words impl) with
-          | some (h, []) =>
-            (match (bindings p).find? (fun b => !bindingMirrors a h b) with
-             | some b => some s!"C12: client_server_agree: generateParamHeaders: Mcp-Param-{bHex b.header} does not mirror the argument at {showPath b.path} (depth {b.path.length})"
-             | none =>
-               if h.any (fun e => !(bindings p).any (fun b => lowerBytes b.header == e.1)) then
-                 some "C12: client_server_agree: generateParamHeaders produces a header that no annotation binds"
-               else none)
+          | some (h, []) => say (genMonitor std64 p a h)
           | _ => some "C12: client_server_agree: generateParamHeaders output unreadable"
         { model := showHdrs (generateParamHeaders std64 p a), violated := viol }
       | _ => bad
@@ -668,21 +541,7 @@ def stepOp (toks : List String) (impl : String) : Verdict :=
       | some (a, au, rep, r2) =>
         match parseHdrs r2 with
         | some (h, []) =>
-          let show_ (a : Args) : String := match validateParamHeaders std64 p a h with
-            | none => "ok"
-            | some e => if (bindings p).length == 1 then "err " ++ perrTok e else "err"
-          let model := show_ a
-          -- monitor: the function accepts iff every binding mirrors the body
-          let spec := match a with | .bad => true | _ => (bindings p).all (bindingMirrors a h)
-          let viol := if rep && impl != model && impl == show_ au then some f31Clause
-            else if (impl == "ok") == spec then none
-            else if impl != "ok" && f6Like p a h then some "C12: F6 empty-string argument: validateParamHeaders refuses the empty Mcp-Param header the SDK client sends"
-            else if impl == "ok" then
-              (match (bindings p).find? (fun b => !bindingMirrors a h b) with
-               | some b => some s!"C12: dispatch_sound: validateParamHeaders accepts although Mcp-Param-{bHex b.header} differs from the argument at {showPath b.path} (depth {b.path.length})"
-               | none => some "C12: dispatch_sound: validateParamHeaders accepts headers that do not mirror the arguments")
-            else some "C12: violation_status: validateParamHeaders refuses headers that mirror the arguments"
-          { model := model, violated := viol }
+          { model := showVphObs (vphModel std64 p a h), violated := say (vphMonitor std64 p a au rep h (parseVphObs impl)) }
         | _ => bad
       | none => bad
     | none => bad
@@ -691,19 +550,15 @@ def stepOp (toks : List String) (impl : String) : Verdict :=
     -- model's decoding of the member list: exact member names, a repeated member overwrites (`_meta`: merges)
     match hexB (tail1 m), parseParams r with
     | some method, some (p, []) =>
-      let dn := decodeName method p
-      let mv := decodeMetaVersion p
       -- whether the members other than the identifying one decode is the implementation's word (`n`)
       let implOk := (words impl).head? == some "n1"
-      let ok := implOk && dn.isSome
-      let model := s!"n{if ok then 1 else 0} N{if ok then bHex (dn.getD []) else ""} V{bHex mv}"
+      let (ok, name, mv) := paramsModel method p implOk
+      let model := s!"n{if ok then 1 else 0} N{bHex name} V{bHex mv}"
       let viol : Option String := match words impl with
         | [_, n, v] =>
-          if implOk && some (tail1 n) != dn.map bHex then
-            some s!"C12: name_mirror_case_sensitive: extractName yields {tail1 n}; the params member called exactly {match nameMemberOf method with | some k => bHex k | none => "-"} (what the dispatcher decodes and runs) is {match dn with | some x => bHex x | none => "not a string"}"
-          else if tail1 v != bHex mv then
-            some s!"C12: meta_mirror_case_sensitive: extractRequestMeta yields protocol version {tail1 v}; the member called exactly _meta carries {bHex mv}"
-          else none
+          (match hexB (tail1 n), hexB (tail1 v) with
+           | some n, some v => say (paramsMonitor method p implOk n v)
+           | _, _ => some "C12: name_mirror_case_sensitive: unreadable extractor output")
         | _ => some "C12: name_mirror_case_sensitive: unreadable extractor output"
       { model := model, violated := viol }
     | _, _ => bad
@@ -713,19 +568,11 @@ def stepOp (toks : List String) (impl : String) : Verdict :=
       match parseArgs r1 with
       | some (a, []) =>
         let nameOk := nk == "n1"
-        let hdrs := generateParamHeaders std64 p a
-        let verdict := validateParamHeaders std64 p a hdrs
         -- `extractName` fails on both sides: no Mcp-Name is sent and the server answers -32020
-        let model := if !nameOk then "rej -32020 handler=0" else match verdict with | none => "ok same" | some _ => "rej -32020 handler=0"
-        -- client_server_agree: for valid arguments (every bound, present, non-null member primitive) the call goes through
-        let valid := nameOk && argsValidB p a
-        let viol :=
-          if valid && impl != "ok same" then
-            (if f6Like p a hdrs then some "C12: F6 empty-string argument: the SDK server refuses the SDK client's call (-32020 missing header)"
-             else some "C12: client_server_agree: the SDK server refuses or alters a call the SDK client generated for valid arguments")
-          else if !(impl.startsWith "ok") && !(impl.endsWith "handler=0") then some "C12: refused call reached the tool handler"
-          else none
-        { model := model, violated := viol }
+        let model := match e2eModel std64 nameOk p a with
+          | .okSame => "ok same"
+          | _ => "rej -32020 handler=0"
+        { model := model, violated := say (e2eMonitor std64 nameOk p a (parseE2eObs impl)) }
       | _ => bad
     | none => bad
   | "http" :: r =>
@@ -734,26 +581,15 @@ def stepOp (toks : List String) (impl : String) : Verdict :=
       let o := verdict std64 req
       let obs := parseHttpObs impl
       let viol := match obs with
-        | some ob => (httpMonitor req ob ins).orElse (fun _ => handlerNameMonitor req ob)
+        | some ob => (httpMonitorAll std64 req ins ob).map (clauseText (some (req, ins)))
         | none => some s!"C12: the handler did not answer ({impl})"
-      -- preflight-F31: the violation is exactly what merging the repeated `arguments` members (pinned tree) produces
-      let viol := match viol, ins with
-        | some v, [mi] =>
-          if repeatedArguments mi.raw.params then
-            let reqU : Req := { req with content := match req.content with
-              | .msgs b [m] => .msgs b [{ m with args := decodeArgsUnrepaired mi.raw.params }]
-              | c => c }
-            if showOutcome reqU (verdict std64 reqU) obs == impl then some f31Clause else some v
-          else some v
-        | v, _ => v
-      { model := showOutcome req o obs, violated := viol }
+      let model := modelObs req o (obs.getD blankObs)
+      -- self-check of the string layer: the model's observation survives rendering and parsing
+      let viol := if parseHttpObs (showHttpObs model) == some model then viol
+        else viol.orElse (fun _ => some "LIBDISC render/parse: the model's observation does not survive the string layer")
+      { model := showHttpObs model, violated := viol }
     | none => bad
   | _ => bad
-where
-  f6Like (p : Props) (a : Args) (h : ParamHdrs) : Bool :=
-    (bindings p).any (fun b => h.get b.header == [] && (match a.lookup b.path with
-      | some v => unmarshalPrimitive v == some (.str []) | none => false)) &&
-    (bindings p).all (bindingMirrors a h)
 
 def engine : Engine Unit where
   init := ()
